@@ -1191,6 +1191,26 @@ func (e *env) genDec(rng *gen.Rng) {
 				r.Count("dec-truncated:" + which)
 			}
 		}
+		// round 4: the same truncations at every position of a longer list (a bounds check on the whole list instead of
+		// on what remains after the 38/48/58 is only wrong when the form is NOT at the start and the list has >= 3 / >= 5
+		// entries): 0-5 leading parameters, 0-2 trailing ones, legacy and colon forms of 38, 48 and 58
+		for _, p := range []string{"38", "48", "58"} {
+			for _, f := range []string{p + ";5;7", p + ";2;10;20;30", p + ":5:7", p + ":2:10:20:30", p + ":2::10:20:30"} {
+				for cut := len(p); cut <= len(f); cut++ {
+					if cut < len(f) && f[cut] != ';' && f[cut] != ':' {
+						continue
+					}
+					t := f[:cut]
+					for _, pre := range []string{"", "1;", "1;3;", "1;3;4:3;", "1;3;7;9;", "0;1;3;7;9;"} {
+						for _, suf := range []string{"", ";1", ";1;3"} {
+							e.dec(which, zero, "S"+pre+t+suf, "T61")
+							r.Count("dec-truncated-pos:" + which)
+						}
+					}
+					e.dec(which, busy, "S1;3;"+t, "T61", "S"+t+";22", "T62")
+				}
+			}
+		}
 	}
 	// producer-like streams: sequences from the producers' range, one parameter list each
 	np := 6000
